@@ -69,6 +69,14 @@ func (svc *service) receiver() {
 				if !isEOF(err) {
 					log.Debugf("(%s) Reading from connection failed: %v", svc.cid(), err)
 				}
+				if nerr, ok := err.(net.Error); ok && nerr.Timeout() {
+					// The keep-alive time has expired: the peer is considered
+					// dead. If it has stopped reading as well, the sender is
+					// blocked writing to it and the processor may be waiting
+					// for room in the outgoing buffer; neither would ever
+					// notice. Closing the connection releases them.
+					conn.Close()
+				}
 				return
 			}
 		}
